@@ -68,8 +68,14 @@ def gen_env(rng, p, c, o):
     durs = [0, 0, 1, 2] + ([dl - 1, dl, dl + 1, max(0, dl // 2)] if dl < 1000 else [5, 64])
     durs = [d for d in durs if d >= 0]
     ops = []
+    # cause bias: some scripts fail only through results, some only through exceptions
+    bias = rng.choice(["mixed", "mixed", "res", "exc"]) if p["has_rc"] else "mixed"
     for i in range(n_ops):
         r = rng.random()
+        if bias == "res":
+            r = 0.5 + r * 0.5 if r < 0.5 else r        # exception failures become result failures
+        elif bias == "exc" and 0.5 <= r < 0.75:
+            r = r - 0.5
         dur = rng.choice(durs)
         klass = rng.choice(pool) if rng.random() < 0.85 else rng.choice(KLASSES)
         ra = rng.choice([None, None, None, 0, 2, 7, 10**7])
@@ -439,8 +445,30 @@ def shrink_seq(pid, seq, fails):
     return cur
 
 
+def abort_sentinels(seqs, obs, rng, frac=1.0, limit=250):
+    """Derived scripts: for a call whose abort_if answered False throughout, script abort_if to answer True from
+    the first poll the run did NOT make.  On code that polls where the model says, nothing changes; an extra
+    poll anywhere (a dropped guard, a duplicated check) now sees True and the behaviour diverges."""
+    import copy
+    out = []
+    for s, ob in zip(seqs, obs):
+        idx = [j for j, (c, o) in enumerate(zip(s["calls"], ob))
+               if c["cfg"]["has_abort"] and not any(c["env"]["abort"]) and o["delivery"][0] != "driver_error"]
+        if not idx or rng.random() > frac:
+            continue
+        t = copy.deepcopy(s)
+        for j in idx:
+            polls = sum(1 for e in ob[j]["trace"] if e[0] == "P")
+            t["calls"][j]["env"]["abort"] = [False] * polls + [True] * 4
+        t["derived"] = "abort-sentinel"
+        out.append(t)
+        if len(out) >= limit:
+            break
+    return out
+
+
 def run_runner_check(chk, pid, proj, opts, n_quick=400, n_thorough=6000, extra_seqs=None, oracle_pid=None,
-                     keep_result=None):
+                     keep_result=None, extra_oracle=None):
     import oracles
     oracle_pid = oracle_pid or pid
     theorems_ok = chk.check_theorems()
@@ -450,12 +478,17 @@ def run_runner_check(chk, pid, proj, opts, n_quick=400, n_thorough=6000, extra_s
     if extra_seqs:
         seqs += extra_seqs
     obs = run_impl(seqs, jobs=min(16, common.NPROC))
+    sent = abort_sentinels(seqs, obs, chk.rng, limit=250 if chk.tier == "quick" else 3000)
+    if sent:
+        seqs += sent
+        obs += run_impl(sent, jobs=min(16, common.NPROC))
     drv = [(i, o["delivery"]) for i, ob in enumerate(obs) for o in ob if o["delivery"][0] == "driver_error"]
     if drv:
         raise common.DriverError("runner_driver failed on a script: " + str(drv[0][1][1])[-1500:])
     bad = []
     if oracle_pid in oracles.ORACLES:
         bad = [(i, m) for i, (s, o) in enumerate(zip(seqs, obs)) for m in [oracles.check_seq(oracle_pid, s, o)] if m]
+    extra_bad = extra_oracle(seqs, obs) if extra_oracle else []
     failing, errors = [], []
     if theorems_ok:
         failing, errors = compare_in_coq(chk, seqs, obs, proj)
@@ -469,7 +502,7 @@ def run_runner_check(chk, pid, proj, opts, n_quick=400, n_thorough=6000, extra_s
         "Retry/AsyncRetry .call/.execute on /repo; non-trivial = some call has >= 2 invocations or does not end in "
         "success; distinct by the full observed trace + delivery",
         samples=[{"script": seqs[i], "observed": obs[i]} for i in ([len(seqs) - 1] if seqs else [])],
-        distribution=st, projection=proj,
+        distribution=st, projection=proj, abort_sentinel_scripts=len(sent),
     )
     if errors:
         chk.violation({"kind": "correspondence-error", "what": "cases file did not evaluate", "errors": errors[:3]}, no_input=True)
@@ -480,7 +513,13 @@ def run_runner_check(chk, pid, proj, opts, n_quick=400, n_thorough=6000, extra_s
 
     if keep_result is not None:
         keep_result.update(seqs=seqs, obs=obs, bad=bad, failing=failing)
-    if bad:
+    if extra_bad:
+        i, rep = extra_bad[0]
+        rep = dict(rep)
+        rep.setdefault("model_disagrees_on_original", i in failing)
+        rep["also_failing"] = len(extra_bad)
+        chk.violation(rep)
+    elif bad:
         i, msg = bad[0]
         small = shrink_seq(oracle_pid, seqs[i], fails_batch)
         so = run_impl([small], jobs=1)[0]
